@@ -3,7 +3,7 @@
 # Confirms a sub-agent's seeded change in its scratch worktree /tmp/mut/Cxx:
 # builds, existing suite passes, demo fails with the change and passes without.
 # On success stores it as /verif/seeded/Cxx-n/.
-ID=$1; N=$2
+ID=$1; N=$2; SN=${3:-$2}
 MUT=${MUT:-/tmp/mut}; SUF=${SUF:-}
 WT=$MUT/$ID; OUT=$MUT/$ID-out
 export GOFLAGS=-mod=mod GOPROXY=off GOSUMDB=off GOTOOLCHAIN=local
@@ -25,7 +25,7 @@ fi
 git -C $WT checkout -q -- . ; git -C $WT clean -fdq
 echo "$ID-$N: build=$BUILD suite=$SUITE demo_with_change=$WITH demo_without=$WITHOUT applies_to_repo_head=$APPLIES"
 if [ $BUILD = ok ] && [ $SUITE = pass ] && [ $WITH = fail ] && [ $WITHOUT = pass ] && [ $APPLIES != no ]; then
-  D=/verif/seeded/$ID-$N$SUF; mkdir -p $D
+  D=/verif/seeded/$ID-$SN; mkdir -p $D
   cp $STORE $D/patch.diff; [ $APPLIES = rebased ] && cp $OUT/patch$N.diff $D/patch.original-base.diff
   for f in $OUT/demo$N*; do cp -r $f $D/; done
   python3 - <<PY
